@@ -15,6 +15,7 @@ namespace planners
         bool pairwise = false;     // C01 pairwise whitelist: path built only from motions validated as exactly that pair
         bool eagerCost = false;    // C04 equality whitelist: stored cost equals the recomputed cost of the path
         bool needsObjective = false;
+        bool multilevel = false;   // ompl::multilevel planner: can also be built over a sequence of spaces (makeMultilevel)
     };
     const std::vector<Info> &geometric();
     const Info *findGeometric(const std::string &name);
@@ -23,6 +24,8 @@ namespace planners
     // setNearestNeighbors<>). Call it after setProblemDefinition() + setup(): several planners' setNearestNeighbors
     // dereference members that only setup() creates (e.g. TRRT), which is an API wart outside the listed properties.
     void applyNearestNeighbors(const std::string &name, ob::Planner *p, const std::string &nn);
+    // multilevel planners over a sequence of spaces, lowest-dimensional first (projections guessed by the library)
+    ob::PlannerPtr makeMultilevel(const std::string &name, std::vector<ob::SpaceInformationPtr> &siVec);
 
     const std::vector<Info> &control();
     ob::PlannerPtr makeControl(const std::string &name, const ompl::control::SpaceInformationPtr &si);
